@@ -74,7 +74,8 @@ Record input := {
   i_kind : dict bkind;             (* classification of compiler.binds[name] *)
   i_values : option (list name);   (* compiler._values_bindparam if _insertmanyvalues is set and it is not None *)
   i_params : dict pval;            (* construct_params(escape_names=False) *)
-  i_pc : bool                      (* bool(compiler.literal_execute_params or compiler.post_compile_params) *)
+  i_pc : bool;                     (* bool(compiler.literal_execute_params or compiler.post_compile_params) *)
+  i_procs : dict N                 (* compiler._bind_processors: bind name -> (identifier of) its bind processor *)
 }.
 
 Definition kind_of (inp : input) (n : name) : bkind :=
@@ -180,6 +181,7 @@ Definition process_numeric (inp : input) (ebn : dict name) (ts : list otok)
 (* ---- _literal_execute_expanding_parameter ---- *)
 Variable lit : Z -> str.          (* render_literal_value of the bind's type *)
 Variable empty_expr : str.        (* visit_empty_set_op_expr *)
+Variable proc : N -> Z -> Z.      (* the bind processors (type-level conversion of a value for the DBAPI) *)
 
 Fixpoint uint_str (u : Decimal.uint) : str :=
   match u with
@@ -239,7 +241,8 @@ Record pcstate := {
   s_repl : dict (list otok);                (* replacement_expressions *)
   s_upd : dict (list (name * Z));           (* to_update_sets *)
   s_newpos : list name;                     (* new_positiontup *)
-  s_numpos : list name                      (* numeric_positiontup *)
+  s_numpos : list name;                     (* numeric_positiontup *)
+  s_procs : dict N                          (* new_processors *)
 }.
 
 Definition pc_step (ps : style) (inp : input) (ebn : dict name) (st : pcstate) (n : name) : result pcstate :=
@@ -251,7 +254,8 @@ Definition pc_step (ps : style) (inp : input) (ebn : dict name) (st : pcstate) (
            | None => Raise KeyError
            | Some v => Ok {| s_params := dpop e (s_params st);
                              s_repl := dset e [OTxt (pct ps (lit_of v))] (s_repl st);
-                             s_upd := s_upd st; s_newpos := s_newpos st; s_numpos := s_numpos st |}
+                             s_upd := s_upd st; s_newpos := s_newpos st; s_numpos := s_numpos st;
+                             s_procs := s_procs st |}
            end
   | Expand =>
       bind (if dmem e (s_repl st)
@@ -267,7 +271,7 @@ Definition pc_step (ps : style) (inp : input) (ebn : dict name) (st : pcstate) (
                      Ok (u, {| s_params := dpop n (s_params st);
                                s_repl := dset e (repl_expand ps e l) (s_repl st);
                                s_upd := dset e u (s_upd st);
-                               s_newpos := s_newpos st; s_numpos := s_numpos st |})
+                               s_newpos := s_newpos st; s_numpos := s_numpos st; s_procs := s_procs st |})
                  end)
            (fun ust =>
               let '(u, st') := ust in
@@ -275,11 +279,16 @@ Definition pc_step (ps : style) (inp : input) (ebn : dict name) (st : pcstate) (
               Ok {| s_params := dupdate (map (fun kv => (fst kv, PS (snd kv))) u) (s_params st');
                     s_repl := s_repl st'; s_upd := s_upd st';
                     s_newpos := if positional ps && negb (numeric ps) then s_newpos st' ++ names else s_newpos st';
-                    s_numpos := if numeric ps then s_numpos st' ++ names else s_numpos st' |})
+                    s_numpos := if numeric ps then s_numpos st' ++ names else s_numpos st';
+                    (* new_processors.update((key, single_processors[name]) ... if name in single_processors) *)
+                    s_procs := match dget n (i_procs inp) with
+                               | Some p => dupdate (map (fun kv => (fst kv, p)) u) (s_procs st')
+                               | None => s_procs st'
+                               end |})
   | Plain =>
       Ok {| s_params := s_params st; s_repl := s_repl st; s_upd := s_upd st;
             s_newpos := if positional ps then s_newpos st ++ [n] else s_newpos st;
-            s_numpos := s_numpos st |}
+            s_numpos := s_numpos st; s_procs := s_procs st |}
   end.
 
 Fixpoint foldM {A B} (f : A -> B -> result A) (l : list B) (a : A) : result A :=
@@ -305,10 +314,10 @@ Record compiled := {
 }.
 
 Definition postcompile (ps : style) (inp : input) (ebn : dict name) (c : compiled) (params : dict pval)
-  : result (list otok * list name * dict pval) :=
+  : result (list otok * list name * dict pval * dict N) :=
   let names := if positional ps then c_positiontup c else i_order inp in
   bind (foldM (pc_step ps inp ebn) names
-          {| s_params := params; s_repl := []; s_upd := []; s_newpos := []; s_numpos := [] |}) (fun st =>
+          {| s_params := params; s_repl := []; s_upd := []; s_newpos := []; s_numpos := []; s_procs := [] |}) (fun st =>
   bind (concatM (fun t => match t with
                           | OPC k => match dget k (s_repl st) with Some r => Ok r | None => Raise KeyError end
                           | _ => Ok [t]
@@ -320,8 +329,8 @@ Definition postcompile (ps : style) (inp : input) (ebn : dict name) (c : compile
                          | OPh k => match dget k pp with Some num => Ok (ONum num) | None => Raise KeyError end
                          | _ => Ok t
                          end) ts) (fun ts' =>
-    Ok (ts', s_newpos st ++ s_numpos st, s_params st))
-  else Ok (ts, s_newpos st, s_params st))).
+    Ok (ts', s_newpos st ++ s_numpos st, s_params st, s_procs st))
+  else Ok (ts, s_newpos st, s_params st, s_procs st))).
 
 (* ---- SQLCompiler.__init__ tail: positional processing by style ---- *)
 Definition compile (ps : style) (inp : input) : result (compiled * dict name) :=
@@ -338,18 +347,28 @@ Definition compile (ps : style) (inp : input) : result (compiled * dict name) :=
 (* ---- DefaultExecutionContext._init_compiled ---- *)
 Inductive fparams := FPos (l : list pval) | FDict (d : dict pval).
 
+(* flattened_processors[key](value) if key in flattened_processors else value *)
+Definition papply (fp : dict N) (k : name) (v : pval) : pval :=
+  match dget k fp, v with
+  | Some p, PS z => PS (proc p z)
+  | _, _ => v
+  end.
+
 Definition run (ps : style) (inp : input) : result (list otok * fparams) :=
   bind (compile ps inp) (fun ce =>
   let '(c, ebn) := ce in
   bind (if i_pc inp
         then postcompile ps inp ebn c (i_params inp)
-        else Ok (c_toks c, c_positiontup c, i_params inp)) (fun r =>
-  let '(ts, ptup, params) := r in
+        else Ok (c_toks c, c_positiontup c, i_params inp, [])) (fun r =>
+  let '(ts, ptup, params, newprocs) := r in
+  (* flattened_processors = dict(processors); flattened_processors.update(expanded_state.processors) *)
+  let fp := dupdate newprocs (i_procs inp) in
   if positional ps then
-    bind (mapM (fun k => match dget k params with Some v => Ok v | None => Raise KeyError end) ptup)
+    bind (mapM (fun k => match dget k params with Some v => Ok (papply fp k v) | None => Raise KeyError end) ptup)
          (fun l => Ok (ts, FPos l))
   else
-    Ok (ts, FDict (match ebn with [] => params | _ => drekey (dget_or_key ebn) params end)))).
+    let processed := map (fun kv => (fst kv, papply fp (fst kv) (snd kv))) params in
+    Ok (ts, FDict (match ebn with [] => processed | _ => drekey (dget_or_key ebn) processed end)))).
 
 (* ---- what the driver does with (statement, parameters): every placeholder replaced by its value ---- *)
 Inductive rchar := Ch (c : N) | Val (v : Z).
@@ -407,7 +426,10 @@ Definition inline (ps : style) (ts : list otok) (fp : fparams) : option (list rc
   | FDict d => if positional ps then None else inline_dict ps ts d
   end.
 
-(* ---- the meaning of the statement: every bind replaced by the value given for ITS name ---- *)
+(* ---- the meaning of the statement: every bind replaced by the value given for ITS name, converted by
+   ITS processor (once) ---- *)
+Definition pz (inp : input) (n : name) (z : Z) : Z :=
+  match dget n (i_procs inp) with Some p => proc p z | None => z end.
 Fixpoint join_vals (l : list Z) : list rchar :=
   match l with
   | [] => []
@@ -418,10 +440,10 @@ Fixpoint join_vals (l : list Z) : list rchar :=
 Definition spec_tok (inp : input) (t : tok) : option (list rchar) :=
   match t with
   | Txt s => Some (map Ch s)
-  | Bind n => match dget n (i_params inp) with Some (PS v) => Some [Val v] | _ => None end
+  | Bind n => match dget n (i_params inp) with Some (PS v) => Some [Val (pz inp n v)] | _ => None end
   | PC n => match kind_of inp n, dget n (i_params inp) with
             | Expand, Some (PL []) => Some (map Ch empty_expr)
-            | Expand, Some (PL l) => Some (join_vals l)
+            | Expand, Some (PL l) => Some (join_vals (map (pz inp n) l))
             | LitExec, Some v => Some (map Ch (lit_of v))
             | _, _ => None
             end
